@@ -304,6 +304,11 @@ func (fc *FuncCtx) ap0(v ssa.Value) string {
 			}
 			return fc.AP(nx.Iter) + fmt.Sprintf("[*k%d]", x.Index)
 		}
+		if c, ok := x.Tuple.(*ssa.Call); ok {
+			if ap := fc.inlinedResultAP(c, x.Index); ap != "" {
+				return ap
+			}
+		}
 		return fc.AP(x.Tuple) + fmt.Sprintf("#%d", x.Index)
 	case *ssa.Range:
 		return fc.AP(x.X)
@@ -538,4 +543,38 @@ func wholeStore(al *ssa.Alloc) ssa.Value {
 		return nil
 	}
 	return st.Val
+}
+
+// inlinedResultAP: when the callee is analysed as part of the caller (inlining policy) and every
+// return hands back the same object for result idx (typically the address of one local), the call's
+// result is named by that object, so that field facts established in the callee and uses in the caller
+// speak about the same access path.
+func (fc *FuncCtx) inlinedResultAP(c *ssa.Call, idx int) string {
+	sc := c.Call.StaticCallee()
+	if sc == nil || fc.A.Inline == nil || !fc.A.Inline(sc) || fc.depth >= fc.A.MaxDepth || len(sc.Blocks) == 0 {
+		return ""
+	}
+	if _, ok := sc.Signature.Results().At(idx).Type().Underlying().(*types.Pointer); !ok {
+		return ""
+	}
+	sub := fc.inlineCtx(sc, c.Call.Args, c)
+	ap := ""
+	for _, ret := range sub.Returns() {
+		if idx >= len(ret.Results) {
+			return ""
+		}
+		v := Resolve(ret.Results[idx])
+		if isNilConst(v) {
+			continue
+		}
+		if _, ok := v.(*ssa.Alloc); !ok {
+			return ""
+		}
+		s := sub.AP(v)
+		if ap != "" && s != ap {
+			return ""
+		}
+		ap = s
+	}
+	return ap
 }
